@@ -800,7 +800,8 @@ fn run_case(case: &Case, o: &mut Outcome) {
                     seq_on_nonempty = true;
                 }
             }
-            Call::SetTree(h) => x.i = 2 + (*h as usize % 5),
+            // half of the resets keep the current height (reset of the same tree), the others change it
+            Call::SetTree(h) => x.i = if *h % 2 == 0 { depth } else { 2 + ((*h / 2) as usize % 5) },
             Call::SetMetadata(b) => x.a = b.clone(),
             Call::SeededKeyGen(b) | Call::SeededExtendedKeyGen(b) | Call::Hash(b) => x.a = b.expand(),
             Call::Verify(m) => x.a = msg_bytes(m, false),
@@ -842,6 +843,11 @@ fn run_case(case: &Case, o: &mut Outcome) {
                 }
             }
             _ => {}
+        }
+        // range / batch writes far to the right of a depth-20 persistent tree take about a minute
+        // (the batch insert walks every node left of the range end): keep them in the first 4096
+        if depth == 20 && matches!(c, Call::SetLeavesFrom(..) | Call::AtomicOperation(..)) && x.i < cap(depth) {
+            x.i %= 4096;
         }
         // ---- Rust API first: inputs for which it does not return are outside the quantifier ---
         let before_b = observe_rust(pair.b.as_mut().unwrap(), depth, &touched);
@@ -1043,7 +1049,7 @@ fn tree_call() -> BoxedStrategy<Call> {
         2 => vecbuf().prop_map(Call::InitTreeWithLeaves),
         5 => (pos(), vecbuf(), idxbuf()).prop_map(|(p, v, i)| Call::AtomicOperation(p, v, i)),
         6 => (vecbuf(), idxbuf()).prop_map(|(v, i)| Call::SeqAtomicOperation(v, i)),
-        1 => any::<u8>().prop_map(Call::SetTree),
+        2 => any::<u8>().prop_map(Call::SetTree),
         2 => proptest::collection::vec(any::<u8>(), 0..40).prop_map(Call::SetMetadata),
         1 => Just(Call::Flush),
         3 => pos().prop_map(Call::GetLeaf),
@@ -1099,13 +1105,20 @@ impl Property for C11 {
         ]
     }
     fn plan(&self, tier: Tier) -> Plan {
-        Plan { shards: 16, cases_per_shard: tier.pick(30, 1200), max_shrink_iters: 512, watchdog_s: tier.pick(900, 10800) }
+        Plan { shards: 16, cases_per_shard: tier.pick(50, 1200), max_shrink_iters: 512, watchdog_s: tier.pick(900, 10800) }
     }
     fn selftest(&self, _ctx: &Ctx) -> Result<(), String> {
         gold().map(|_| ())
     }
     fn strategy(&self, _tier: Tier, _shard: usize) -> BoxedStrategy<Case> {
-        let small = (2usize..=5, proptest::collection::vec(prop_oneof![7 => tree_call(), 3 => util_call()], 1..16)).prop_map(|(depth, calls)| Case { depth, calls });
+        // half of the histories start from a context that already carries metadata, so that anything a
+        // later call does (or fails to do) to it is observable
+        let small = (2usize..=5, proptest::collection::vec(prop_oneof![7 => tree_call(), 3 => util_call()], 1..16), any::<bool>()).prop_map(|(depth, mut calls, init_meta)| {
+            if init_meta {
+                calls.insert(0, Call::SetMetadata(b"initial metadata".to_vec()));
+            }
+            Case { depth, calls }
+        });
         let big = proptest::collection::vec(prop_oneof![3 => proof_call(), 2 => tree_call(), 1 => util_call()], 1..7).prop_map(|mut calls| {
             // at most two proving calls per history (each costs a Groth16 proof on both sides)
             let mut n = 0;
@@ -1125,7 +1138,11 @@ impl Property for C11 {
         let mut o = Outcome::new();
         o.label(format!("depth/{}", case.depth));
         arm_abort_guard(case);
+        let t0 = std::time::Instant::now();
         run_case(case, &mut o);
+        if std::env::var("VERIF_TIMING").is_ok() && t0.elapsed().as_millis() > 500 {
+            eprintln!("TIMING {:?} depth {} calls {:?}", t0.elapsed(), case.depth, case.calls.iter().map(kind).collect::<Vec<_>>());
+        }
         disarm_abort_guard(case);
         o
     }
